@@ -22,7 +22,7 @@ ClassFmt(c) == CASE c \in {"IntArray", "V2iArray", "V3iArray", "V4iArray"} -> {"
                  [] c \in {"DoubleArray", "V2dArray", "V3dArray", "V4dArray"} -> {"d"}
                  [] c \in {"ShortArray", "V2sArray", "V3sArray", "V4sArray"} -> {"h"}
                  [] c = "UnsignedCharArray" -> {"B"}
-                 [] c \in {"V2i64Array", "V3i64Array", "V4i64Array"} -> {"l", "q"}
+                 [] c \in {"V2i64Array", "V3i64Array", "V4i64Array", "Int64Array"} -> {"l", "q"}
                  [] OTHER -> {}
 RECURSIVE Prod(_, _)
 Prod(s, k) == IF k > Len(s) THEN 1 ELSE s[k] * Prod(s, k + 1)
@@ -40,10 +40,10 @@ MviewOK(r) ==
     /\ r.ro = r.madero
     /\ r.stable = 1
 
-FnFmt(fn) == CASE fn \in {"IntArrayFromBuffer", "V2iArrayFromBuffer", "V3iArrayFromBuffer", "V4iArrayFromBuffer"} -> "i"
+FnFmt(fn) == CASE fn = "Int64ArrayFromBuffer" -> "l" [] fn \in {"IntArrayFromBuffer", "V2iArrayFromBuffer", "V3iArrayFromBuffer", "V4iArrayFromBuffer"} -> "i"
                [] fn \in {"FloatArrayFromBuffer", "V2fArrayFromBuffer", "V3fArrayFromBuffer", "V4fArrayFromBuffer"} -> "f"
                [] OTHER -> "d"
-FnWidth(fn) == CASE fn \in {"IntArrayFromBuffer", "FloatArrayFromBuffer", "DoubleArrayFromBuffer"} -> 1
+FnWidth(fn) == CASE fn \in {"Int64ArrayFromBuffer", "IntArrayFromBuffer", "FloatArrayFromBuffer", "DoubleArrayFromBuffer"} -> 1
                  [] fn \in {"V2iArrayFromBuffer", "V2fArrayFromBuffer", "V2dArrayFromBuffer"} -> 2
                  [] fn \in {"V3iArrayFromBuffer", "V3fArrayFromBuffer", "V3dArrayFromBuffer"} -> 3
                  [] OTHER -> 4
